@@ -1,6 +1,7 @@
 import GcArena.Proofs.ConvLemmas
 import GcArena.Proofs.LogRun
 import GcArena.Props.C17
+import GcArena.Generated.CollectTable
 /-!
 # C19 (dynamic half) — conversions keep the object: identity, collector identity, metadata, ZSTs
 
@@ -19,10 +20,15 @@ strength.  `Safe`, `AccessibleC`, `StrongReachC` and the whole of `Arena.run` de
 only through `GcArena.Ptr`, so a converted pointer *is* the original pointer as far as the
 collector is concerned (`collector_view`, `indistinguishable`), and the safety and
 exactly-once theorems of C01 / C04 apply to it verbatim (`converted_keeps_alive`,
-`converted_weak_block_stays`, `destructed_once`).  That the destructor that eventually runs is the
-one of the *allocated* type is by construction of the model — `Alloc.target` is an input of
-`step`, never an output, as the vtable pointer in `GcHeader` is written once by `GcPtr::alloc` —
-and is checked on the implementation by the harness (drop log type tags).
+`converted_weak_block_stays`, `destructed_once`).  Destruction is modelled by its mechanism: the
+collector finds the block's header from the pointer's address and takes the drop glue and the
+length from there (`destructVia`, src/gc_ptr.rs `GcPtr::drop_in_place` / `VtableFor::VTABLE`), so
+what is destructed does not depend on the chain that produced the pointer
+(`destruct_chain_independent`, with the counter-model `destruct_through_pointer_would_differ`),
+and over histories each block handed out by an `.alloc` operation is destructed at most once, as
+the type it was constructed as (`destructed_as_original_type`).  Dereference is modelled with the
+metadata the pointer reports and fails on any misfit (`deref`, `deref_original_value`).  Both are
+checked on the implementation by the harness (`read=` / `as=` fields, drop log type tags).
 
 Tie: `lib/eng_conv.py` (harness_conv vs. the driver `convmodel`, lean/ConvMain.lean).  The static
 half (no conjuring of a `Gc<T>`) is `GcArena.Props.C19s`.
@@ -148,14 +154,13 @@ theorem metadata_exact (a : Alloc) (ch : Chain) (q : PtrVal) (h : apply a ch (in
 /-- Slices and strings: every `[E]` / `str` typed pointer obtained by any chain sees the length
     the value was allocated with — carried in the pointer when fat, rebuilt from the header when
     thin. -/
-theorem length_exact (a : Alloc) (n : Nat) (ht : a.target = .slice n ∨ a.target = .str n)
+theorem length_exact (a : Alloc) (n : Nat)
+    (ht : a.target = .slice n ∨ a.target = .str n ∨ a.target = .swh n)
     (ch : Chain) (q : PtrVal) (h : apply a ch (initPtr a) = some q) (hty : q.ty = .orig) :
     derefMeta a.target q = .len n ∧ (q.thin = false → q.carried = .len n) := by
   obtain ⟨h1, h2, _⟩ := metadata_exact a ch q h
   have : fatMeta a.target q.ty = .len n := by
-    rw [hty]; cases ht with
-    | inl ht => simp [ht, fatMeta, Target.hdrLen]
-    | inr ht => simp [ht, fatMeta, Target.hdrLen]
+    rw [hty]; rcases ht with ht | ht | ht <;> simp [ht, fatMeta, Target.hdrLen]
   rw [this] at h1 h2
   exact ⟨h1, h2⟩
 
@@ -288,9 +293,10 @@ theorem destructed_once (n : Nat) (ops : List Op) (a : Alloc) (ch : Chain) (p q 
 
 /-- Every strong pointer obtained by any chain from the allocating call's result dereferences to
     the original value: at the allocated type it sees the constructed type and *all* its value
-    tokens (for `[E]` / `str`: exactly the original elements — the length it reads, carried or
-    rebuilt from the header, is the original one), after `unsize!` the `[E]` view of all elements
-    or the `dyn` view backed by the constructed type's value, after `erase` a `&()`.
+    tokens, after `unsize!` the `[E]` view of all elements or the `dyn` view backed by the
+    constructed type's value, after `erase` a `&()`.  `deref` answers `none` for metadata that
+    does not fit exactly (a lost, shortened or inflated length, a foreign vtable), so this rests
+    on `metadata_exact`: no chain loses or changes the length or the vtable.
     (Hypothesis `hlen`: the value has as many tokens as its type says.) -/
 theorem deref_original_value (a : Alloc) (tyTag : Nat) (tokens : List Nat)
     (hlen : tokens.length = a.target.elemCount) (ch : Chain) (q : PtrVal)
@@ -302,14 +308,26 @@ theorem deref_original_value (a : Alloc) (tyTag : Nat) (tokens : List Nat)
   cases hty : q.ty
   · -- orig
     cases ht : a.target <;>
-      simp_all [fatMeta, Target.hdrLen, fullView, Target.elemCount] <;>
-      (subst hlen; exact List.take_length)
+      simp_all [fatMeta, Target.hdrLen, fullView, Target.elemCount, Target.visible] <;>
+      exact List.take_of_length_le (Nat.le_of_eq hlen)
   · simp [fullView]
   · -- uns: the allocation is sized
     have hsz := (hw.uns hty).1
     cases ht : a.target <;>
       simp_all [fatMeta, fullView, Target.isSized, Target.elemCount] <;>
-      (subst hlen; exact List.take_length)
+      exact List.take_of_length_le (Nat.le_of_eq hlen)
+
+private theorem apply_snoc {a : Alloc} {s : Step} {q r : PtrVal} (hstep : step a s q = some r) :
+    ∀ (c : Chain) (p : PtrVal), apply a c p = some q → apply a (c ++ [s]) p = some r := by
+  intro c
+  induction c with
+  | nil => intro p hp; simp [apply] at hp; subst hp; simp [apply, hstep]
+  | cons s' c ih =>
+    intro p hp
+    simp only [apply, List.cons_append] at hp ⊢
+    cases hs : step a s' p with
+    | none => rw [hs] at hp; cases hp
+    | some r' => rw [hs] at hp; simp only; exact ih r' hp
 
 /-- A weak result dereferences (after `upgrade`) to the original value as long as `upgrade`
     succeeds. -/
@@ -321,53 +339,128 @@ theorem deref_after_upgrade (a : Alloc) (tyTag : Nat) (tokens : List Nat)
   have happ : applicable a.target .upgrade q = true := by simp [applicable, hw]
   have hstep : step a .upgrade q = some { q with weak := false } := by
     simp [step_of_applicable happ, conv, hu]
-  refine ⟨_, hstep, ?_⟩
-  have h' : apply a (ch ++ [.upgrade]) (initPtr a) = some { q with weak := false } := by
-    have : ∀ (c : Chain) (p : PtrVal), apply a c p = some q → apply a (c ++ [.upgrade]) p = some { q with weak := false } := by
-      intro c
-      induction c with
-      | nil => intro p hp; simp [apply] at hp; subst hp; simp [apply, hstep]
-      | cons s c ih =>
-        intro p hp
-        simp only [apply, List.cons_append] at hp ⊢
-        cases hs : step a s p with
-        | none => rw [hs] at hp; cases hp
-        | some r => rw [hs] at hp; simp only; exact ih r hp
-    exact this ch _ h
-  exact deref_original_value a tyTag tokens hlen _ _ h' rfl
+  exact ⟨_, hstep, deref_original_value a tyTag tokens hlen _ _ (apply_snoc hstep ch _ h) rfl⟩
 
-/-- The destructor runs recorded for a block in a history: one per `dropped` event of its id,
-    each running the drop glue found in the block's header on the block's value. -/
-def glueRuns (s : Stored) (log : List Event) : List (Nat × List Nat) :=
-  (log.filter (· == .dropped s.alloc.id)).map fun _ => (s.glue, s.tokens)
+-- a weak thin slice pointer, upgraded: all three elements of the constructed type
+example : ∃ q r, apply ⟨5, .slice 3, true, false⟩ [.asThin, .downgrade, .ptrKind] (initPtr ⟨5, .slice 3, true, false⟩) = some q ∧
+    q.weak = true ∧ step ⟨5, .slice 3, true, false⟩ .upgrade q = some r ∧
+    deref (store ⟨5, .slice 3, true, false⟩ 42 [10, 11, 12]) r = some (.whole 42 [10, 11, 12]) :=
+  ⟨_, _, rfl, rfl, rfl, by decide⟩
 
-/-- Destructed once, as its original type: whatever chain produced the pointer the value was last
-    held by — whatever that pointer's static type, kind and metadata — over any history the block
-    it refers to has at most one destructor run, and that run is the drop glue of the type the
-    value was *constructed* as, applied to the whole original value; destructing twice runs
-    nothing the second time.  (That no conversion touches the header's glue is by construction of
-    the model — `apply` has no access to `Stored` — and is checked on the implementation by
-    harness_conv: the destructor log records the original type's name, every element once.) -/
-theorem destructed_as_original_type (n : Nat) (ops : List Op) (a : Alloc) (tyTag : Nat)
-    (tokens : List Nat) (ch : Chain) (q : PtrVal) (h : apply a ch (initPtr a) = some q) :
-    (glueRuns (store a tyTag tokens) ((Arena.new n).run ops).ctx.log).length ≤ 1 ∧
-    (∀ r, r ∈ glueRuns (store a tyTag tokens) ((Arena.new n).run ops).ctx.log → r = (tyTag, tokens)) ∧
-    (glueRuns (store a tyTag tokens) ((Arena.new n).run ops).ctx.log).length =
-      ((Arena.new n).run ops).ctx.log.count (.dropped q.obj) ∧
-    (a.live = true → (destruct (store a tyTag tokens)).2 = some (tyTag, tokens) ∧
-      (destruct (destruct (store a tyTag tokens)).1).2 = none) := by
+/-- Chain independence of destruction: the collector destructs the block a pointer refers to
+    through the block's *header* (`destructVia`), so for every result `q` of every chain from the
+    allocating call — unsized, erased, thin, cast, weak, round-tripped through raw pointers — it
+    does exactly what it does for the original pointer: it runs the drop glue of the type the value
+    was *constructed* as on *all* original tokens (for `[E]` / `str` / `SliceWithHeader`: with the
+    length recorded at allocation, not the pointer's).  The reason is `from_alloc`: every chain
+    keeps the block and the address, which is all `destructVia` looks at.
+    (`destruct_through_pointer_would_differ` shows this is not true of a model that destructs
+    through the pointer's static type and metadata.) -/
+theorem destruct_chain_independent (a : Alloc) (tyTag : Nat) (tokens : List Nat)
+    (hlen : tokens.length = a.target.elemCount) (ch : Chain) (q : PtrVal)
+    (h : apply a ch (initPtr a) = some q) :
+    destructVia (store a tyTag tokens) q = destructVia (store a tyTag tokens) (initPtr a) ∧
+    destructVia (store a tyTag tokens) q = some (tyTag, tokens) := by
+  obtain ⟨ho, hf, _⟩ := from_alloc a ch q h
+  obtain ⟨ho', hf', _⟩ := from_alloc a [] (initPtr a) rfl
+  have key : ∀ p : PtrVal, p.obj = a.id → p.off = 0 →
+      destructVia (store a tyTag tokens) p = some (tyTag, tokens) := by
+    intro p hpo hpf
+    simp only [destructVia, store, hpo, hpf, bne_self_eq_false, Bool.or_self, Bool.false_eq_true, if_false]
+    cases ht : a.target <;>
+      simp_all [Target.hdrLen, Target.elemCount, Target.visible] <;>
+      exact List.take_of_length_le (Nat.le_of_eq hlen)
+  exact ⟨(key q ho hf).trans (key _ ho' hf').symm, key q ho hf⟩
+
+/-- The counter-model: if destruction went through the *pointer* (glue of its static type,
+    length from its carried metadata — what an owning `Box<T>` does), it would depend on the
+    chain: after `erase` nothing would be destructed, a thin slice pointer would destruct no
+    element, `[E; n]` unsized would run `[E]`'s glue.  So `destruct_chain_independent` is a
+    property of destructing through the header, not of the vocabulary. -/
+theorem destruct_through_pointer_would_differ :
+    (∃ (a : Alloc) (tokens : List Nat) (ch : Chain) (q : PtrVal),
+      tokens.length = a.target.elemCount ∧ apply a ch (initPtr a) = some q ∧
+      destructViaMeta (store a 7 tokens) q ≠ destructVia (store a 7 tokens) q ∧
+      destructViaMeta (store a 7 tokens) (initPtr a) = destructVia (store a 7 tokens) (initPtr a)) ∧
+    (∃ (q : PtrVal), apply ⟨5, .slice 3, true, false⟩ [.asThin] (initPtr ⟨5, .slice 3, true, false⟩) = some q ∧
+      destructViaMeta (store ⟨5, .slice 3, true, false⟩ 7 [1, 2, 3]) q = some (7, []) ∧
+      destructVia (store ⟨5, .slice 3, true, false⟩ 7 [1, 2, 3]) q = some (7, [1, 2, 3])) := by
+  refine ⟨⟨⟨5, .sized, true, false⟩, [9], [.erase], _, rfl, rfl, by decide, by decide⟩, ⟨_, rfl, by decide, by decide⟩⟩
+
+private theorem run_snoc (ops : List Op) (op : Op) : ∀ A : Arena, A.run (ops ++ [op]) = ((A.run ops).step op).1 := by
+  induction ops with
+  | nil => intro A; simp [Arena.run]
+  | cons o os ih => intro A; simp only [List.cons_append, Arena.run]; exact ih _
+
+private theorem push_mem (a : Arena) (p : Ptr) : p ∈ (a.push p).temps := by
+  unfold Arena.push
+  split
+  · rename_i hh; simpa [Arena.holds] using hh
+  · simp
+
+/-- The allocating operation of the collector model hands the new block's id to the callback. -/
+private theorem alloc_temp (A0 : Arena) (nt : Bool) (slots : List Slot)
+    (hok : (A0.step (.alloc nt slots)).2 ≠ "bad-op") :
+    Ptr.strong A0.ctx.heap.fresh ∈ (A0.step (.alloc nt slots)).1.temps := by
+  obtain ⟨ctx, root, temps, cb, cover, marked, alive⟩ := A0
+  cases alive
+  · simp [Arena.step, Arena.bad] at hok
+  · simp only [Arena.step, Bool.not_true, Bool.false_eq_true, if_false, Arena.stepBody] at hok ⊢
+    split at hok
+    · simp [Arena.bad] at hok
+    · split at hok
+      · simp [Arena.bad] at hok
+      · split at hok
+        · simp [Arena.bad] at hok
+        · rename_i h1 h2 h3
+          rw [if_neg h1, if_neg h2, if_neg h3]
+          exact push_mem _ _
+
+/-- The destructor runs of the block `q` refers to, over a history: one per `dropped` event the
+    collector logs for that block, each being what the collector does given that pointer. -/
+def glueRuns (s : Stored) (q : PtrVal) (log : List Event) : List (Nat × List Nat) :=
+  (log.filter (· == .dropped q.obj)).filterMap fun _ => destructVia s q
+
+/-- Destructed once, as its original type — over histories.  Let the block be the one handed out
+    by an accepted `.alloc` operation of the history (`hid`, `hok`), holding a well-formed value
+    (`hlen`).  Then (1) right after that operation the block exists and is undestructed; and in
+    every later state, for every pointer `q` obtained from it by any chain, (2) the collector logs
+    at most one destruction of the block `q` refers to, and (3) each logged destruction is the
+    constructed type's drop glue on all original tokens — `destruct_chain_independent` applied at
+    the event — whatever `q`'s static type, kind or metadata. -/
+theorem destructed_as_original_type (n : Nat) (pre post : List Op) (nt : Bool) (slots : List Slot)
+    (a : Alloc) (tyTag : Nat) (tokens : List Nat) (hlen : tokens.length = a.target.elemCount)
+    (hid : a.id = ((Arena.new n).run pre).ctx.heap.fresh)
+    (hok : (((Arena.new n).run pre).step (.alloc nt slots)).2 ≠ "bad-op")
+    (halive : ((Arena.new n).run (pre ++ [.alloc nt slots])).alive = true)
+    (ch : Chain) (q : PtrVal) (h : apply a ch (initPtr a) = some q) :
+    (∃ o, ((Arena.new n).run (pre ++ [.alloc nt slots])).ctx.heap.get a.id = some o ∧ o.live = true) ∧
+    (glueRuns (store a tyTag tokens) q ((Arena.new n).run (pre ++ .alloc nt slots :: post)).ctx.log).length ≤ 1 ∧
+    (∀ r, r ∈ glueRuns (store a tyTag tokens) q ((Arena.new n).run (pre ++ .alloc nt slots :: post)).ctx.log →
+      r = (tyTag, tokens)) ∧
+    (glueRuns (store a tyTag tokens) q ((Arena.new n).run (pre ++ .alloc nt slots :: post)).ctx.log).length =
+      ((Arena.new n).run (pre ++ .alloc nt slots :: post)).ctx.log.count (.dropped a.id) := by
   have ho := (from_alloc a ch q h).1
-  have hc : (glueRuns (store a tyTag tokens) ((Arena.new n).run ops).ctx.log).length =
-      ((Arena.new n).run ops).ctx.log.count (.dropped q.obj) := by
-    simp [glueRuns, store, ho, List.count_eq_length_filter]
-  refine ⟨?_, ?_, hc, ?_⟩
-  · rw [hc]; exact List.nodup_iff_count.mp (linv_run n ops).nodup _
+  have hd := (destruct_chain_independent a tyTag tokens hlen ch q h).2
+  have hrun : (Arena.new n).run (pre ++ [.alloc nt slots]) = (((Arena.new n).run pre).step (.alloc nt slots)).1 := by
+    exact run_snoc pre _ _
+  refine ⟨?_, ?_, ?_, ?_⟩
+  · have ht := alloc_temp _ nt slots hok
+    rw [← hrun, ← hid] at ht
+    have hacc : Accessible ((Arena.new n).run (pre ++ [.alloc nt slots])) a.id := .temp _ ht
+    obtain ⟨o, ho', hl, _⟩ := (inv_run n _ halive).safe_of_accessible hacc
+    exact ⟨o, ho', hl⟩
+  · have : (glueRuns (store a tyTag tokens) q ((Arena.new n).run (pre ++ .alloc nt slots :: post)).ctx.log).length ≤
+        ((Arena.new n).run (pre ++ .alloc nt slots :: post)).ctx.log.count (.dropped q.obj) := by
+      simp only [glueRuns, List.count_eq_length_filter]
+      exact List.length_filterMap_le _ _
+    exact Nat.le_trans this (List.nodup_iff_count.mp (linv_run n _).nodup _)
   · intro r hr
-    simp only [glueRuns, List.mem_map] at hr
-    obtain ⟨_, _, rfl⟩ := hr
-    rfl
-  · intro hl
-    simp [destruct, store, hl]
+    simp only [glueRuns, List.mem_filterMap] at hr
+    obtain ⟨_, _, hr⟩ := hr
+    rw [hd] at hr
+    exact (Option.some.inj hr).symm
+  · simp [glueRuns, hd, ho, List.count_eq_length_filter]
 
 /-! ### ZstCache -/
 
@@ -410,29 +503,73 @@ theorem zst_cache_aliases_ptr_eq (c : Cache) (n1 n2 s1 al1 s2 al2 : Nat) (t1 t2 
   rw [aliasing_results_ptr_eq _ _ ch1 ch2 q1 q2 h1 h2]
   exact decide_eq_true (zst_shared_alias c n1 n2 s1 al1 s2 al2 hs1 hs2)
 
-/-- A cache that is held where the collector finds it — its `cached_ptr` is among the slots
-    reported by the root or by an object the client can name, which is what `Collect for
-    ZstCache` (`NEEDS_TRACE = true`, `trace_gc(self.cached_ptr)`) provides wherever the cache is
-    stored — keeps its shared block through any history: allocated, undestructed, not released.
-    So every later qualifying `alloc` returns a valid pointer, `ptr_eq` to the earlier ones
-    (`zst_shared_alias`).  (A corollary of `converted_keeps_alive`; that the premise holds for a
-    cache inside `Option` / `Box` / `Vec` / a struct field is C16's claim about `NEEDS_TRACE` and is
-    observed by harness_conv's `zkeep` cases.) -/
-theorem zst_cache_rooted_block_kept (n : Nat) (ops : List Op)
-    (halive : ((Arena.new n).run ops).alive = true) (c : Cache)
-    (held : some (Ptr.strong c.obj) ∈ ((Arena.new n).run ops).root ∨
-      ∃ j o, Accessible ((Arena.new n).run ops) j ∧
-        ((Arena.new n).run ops).ctx.heap.get j = some o ∧ some (Ptr.strong c.obj) ∈ o.slots) :
-    Safe ((Arena.new n).run ops).ctx c.obj ∧ Event.dropped c.obj ∉ ((Arena.new n).run ops).ctx.log ∧
-    Event.freed c.obj ∉ ((Arena.new n).run ops).ctx.log := by
+/-- The row of the source-derived `Collect` table (C16, regenerated from /repo by eng_collect)
+    for `impl Collect for ZstCache`. -/
+def zstCacheRow : Option CollectTy.Entry :=
+  Generated.collectTable.entries.find? fun e =>
+    e.text == "impl<'gc, const MAX_ALIGN: usize> Collect for ZstCache<'gc, MAX_ALIGN>"
+
+/-- What a traced `ZstCache` value reports to the collector according to that row: its
+    `cached_ptr`, provided the impl keeps `NEEDS_TRACE` true (so that no container's
+    `cc.trace(&cache)` short-circuits) and its `trace` mentions the field. -/
+def cacheReports (c : Cache) : List Slot :=
+  match zstCacheRow with
+  | some e => if e.constNeeds && e.tracedFields.contains "cached_ptr" then [some (.strong c.obj)] else []
+  | none => []
+
+/-- The table fact: on the current tree the `ZstCache` impl has a literal `NEEDS_TRACE = true` and
+    traces `cached_ptr`, its only `'gc` field.  (Fails to build on a tree where it does not.) -/
+theorem zst_cache_traces_cached_ptr (c : Cache) : cacheReports c = [some (.strong c.obj)] := by
+  have h : (zstCacheRow.map fun e => (e.constNeeds && e.tracedFields.contains "cached_ptr", e.ptrFields)) =
+      some (true, ["cached_ptr"]) := by decide
+  unfold cacheReports
+  cases hr : zstCacheRow with
+  | none => rw [hr] at h; cases h
+  | some e =>
+    rw [hr] at h
+    simp only [Option.map_some, Option.some.injEq, Prod.mk.injEq] at h
+    simp only [h.1, if_true]
+
+/-- A rooted cache keeps serving the same, valid block.  Let the cache's block be the one handed
+    out by an accepted `.alloc false []` operation of the history (`ZstCache::new`:
+    `Gc::new_static` of a pointer-free value), and let — in some later state — everything a traced
+    `ZstCache` reports (`cacheReports`, by the C16 table row: its `cached_ptr`) be among the slots
+    of the root or of an object the client can name (the cache sits in the root, or in a container
+    / struct field that is traced).  Then a *later* `alloc` of any qualifying zero-sized type
+    returns that very block, allocates nothing, and the block is still allocated, undestructed and
+    not condemned: the pointer is valid and `ptr_eq` to every earlier one (`zst_shared_alias`).
+    (`Cache` itself is inert data; the content is C01's safety at the block the history really
+    allocated, plus the table fact.  That a cache inside `Option` / `Box` / `Vec` / a struct field
+    is traced is C16's claim and is observed by harness_conv's `zkeep` cases.) -/
+theorem zst_cache_rooted_block_kept (n : Nat) (pre post : List Op) (c : Cache)
+    (hid : c.obj = ((Arena.new n).run pre).ctx.heap.fresh)
+    (hok : (((Arena.new n).run pre).step (.alloc false [])).2 ≠ "bad-op")
+    (halive1 : ((Arena.new n).run (pre ++ [.alloc false []])).alive = true)
+    (halive : ((Arena.new n).run (pre ++ .alloc false [] :: post)).alive = true)
+    (held : ∀ s, s ∈ cacheReports c →
+      s ∈ ((Arena.new n).run (pre ++ .alloc false [] :: post)).root ∨
+      ∃ j o, Accessible ((Arena.new n).run (pre ++ .alloc false [] :: post)) j ∧
+        ((Arena.new n).run (pre ++ .alloc false [] :: post)).ctx.heap.get j = some o ∧ s ∈ o.slots)
+    (next size align : Nat) (hq : zstShared size align c.maxAlign = true) :
+    (∃ o, ((Arena.new n).run (pre ++ [.alloc false []])).ctx.heap.get c.obj = some o ∧ o.live = true) ∧
+    (c.alloc next size align).obj = c.obj ∧ (c.alloc next size align).fresh = false ∧
+    Safe ((Arena.new n).run (pre ++ .alloc false [] :: post)).ctx (c.alloc next size align).obj ∧
+    Event.dropped c.obj ∉ ((Arena.new n).run (pre ++ .alloc false [] :: post)).ctx.log ∧
+    Event.freed c.obj ∉ ((Arena.new n).run (pre ++ .alloc false [] :: post)).ctx.log := by
+  have hobj : (c.alloc next size align).obj = c.obj := by simp [Cache.alloc, hq]
+  have hfresh : (c.alloc next size align).fresh = false := by simp [Cache.alloc, hq]
+  have hheld := held (some (.strong c.obj)) (by rw [zst_cache_traces_cached_ptr]; simp)
   let a : Alloc := ⟨c.obj, .zcached 1 c.maxAlign, true, false⟩
-  have h : apply a [] (initPtr a) = some (initPtr a) := rfl
   have hp : (initPtr a).toPtr = .strong c.obj := rfl
-  have := converted_keeps_alive n ops halive a [] (initPtr a) (initPtr a) h rfl
-    (by rw [hp]; rcases held with h1 | h2
+  have hk := converted_keeps_alive n _ halive a [] (initPtr a) (initPtr a) rfl rfl
+    (by rw [hp]; rcases hheld with h1 | h2
         · exact Or.inl h1
         · exact Or.inr (Or.inr h2))
-  exact ⟨this.2.1, this.2.2.1, this.2.2.2⟩
+  refine ⟨?_, hobj, hfresh, by rw [hobj]; exact hk.2.1, hk.2.2.1, hk.2.2.2⟩
+  have ht := alloc_temp _ false [] hok
+  rw [← run_snoc, ← hid] at ht
+  obtain ⟨o, ho', hl, _⟩ := (inv_run n _ halive1).safe_of_accessible (.temp _ ht)
+  exact ⟨o, ho', hl⟩
 
 /-- The value handed to `alloc` is destructed exactly once in either case: at once when the
     shared pointer is returned (the shared block holds no `T`), with its block otherwise.
@@ -497,10 +634,16 @@ example : apply ⟨0, .sized, true, true⟩ [.erase, .cast, .upgrade] (initWeak 
   decide
 example : (chainsOfLen (.slice 3) 2 (initPtr sliceAlloc)).length = 49 := by decide
 
-/-- The converted slice pointer as the collector sees it. -/
-def convPtr : Ptr := ((apply sliceAlloc sliceChain (initPtr sliceAlloc)).getD default).toPtr
+/-- The converted slice pointer as the collector sees it (a chain that failed would give a
+    pointer the demos below cannot store). -/
+def convPtr : Ptr :=
+  match apply sliceAlloc sliceChain (initPtr sliceAlloc) with
+  | some q => q.toPtr
+  | none => .weak 999
 def convWeak : Ptr :=
-  ((apply sliceAlloc (sliceChain ++ [.downgrade]) (initPtr sliceAlloc)).getD default).toPtr
+  match apply sliceAlloc (sliceChain ++ [.downgrade]) (initPtr sliceAlloc) with
+  | some q => q.toPtr
+  | none => .strong 999
 
 example : convPtr = .strong 0 ∧ convWeak = .weak 0 := by decide
 
@@ -541,20 +684,58 @@ example : (((Arena.new 1).run condemnedDemo).ctx.heap.get 0).map (fun o => (o.li
 example : (((Arena.new 1).run condemnedDemo).ctx.upgrade 0).2 = false := by decide
 example : scenarioState .sweep .ww = (true, true) := rfl
 
--- deref: after any chain the slice pointer sees all three original elements of the constructed type
-example : deref (store sliceAlloc 42 [10, 11, 12])
-    ((apply sliceAlloc sliceChain (initPtr sliceAlloc)).getD default) = some (.whole 42 [10, 11, 12]) := by decide
--- … whereas a pointer with another length (which no chain produces) would not
-example : deref (store sliceAlloc 42 [10, 11, 12]) ⟨0, 0, false, false, .slice, .orig, .len 2⟩ =
-    some (.whole 42 [10, 11]) := by decide
-example : deref (store ⟨0, .sized, true, false⟩ 7 [99])
-    ((apply ⟨0, .sized, true, false⟩ [.asThin, .unsize, .erase, .cast, .unsize] (initPtr ⟨0, .sized, true, false⟩)).getD default) =
-    some (.dynOf 7 [99]) := by decide
--- destruction runs the constructed type's glue on the whole value, once
-example : (destruct (store sliceAlloc 42 [10, 11, 12])).2 = some (42, [10, 11, 12]) ∧
-    (destruct (destruct (store sliceAlloc 42 [10, 11, 12])).1).2 = none := by decide
-example : glueRuns (store sliceAlloc 42 [10, 11, 12]) ((Arena.new 1).run weakDemo2).ctx.log = [(42, [10, 11, 12])] := by
+-- deref (block id 5, so that no default value can stand in for a result): after the chain the
+-- slice pointer sees all three original elements of the constructed type
+def slice5 : Alloc := ⟨5, .slice 3, true, false⟩
+example : ∃ q, apply slice5 sliceChain (initPtr slice5) = some q ∧
+    deref (store slice5 42 [10, 11, 12]) q = some (.whole 42 [10, 11, 12]) := ⟨_, rfl, by decide⟩
+-- … whereas pointers with a shortened, inflated or lost length (which no chain produces), a foreign
+-- vtable, another block or an offset do not dereference to the value at all
+example : deref (store slice5 42 [10, 11, 12]) ⟨5, 0, false, false, .slice, .orig, .len 2⟩ = none ∧
+    deref (store slice5 42 [10, 11, 12]) ⟨5, 0, false, false, .slice, .orig, .len 4⟩ = none ∧
+    deref (store slice5 42 [10, 11, 12]) ⟨5, 0, false, false, .slice, .orig, .none⟩ = none ∧
+    deref (store ⟨5, .sized, true, false⟩ 7 [99]) ⟨5, 0, false, false, .unit, .uns, .vtable (.zst 8)⟩ = none ∧
+    deref (store slice5 42 [10, 11, 12]) ⟨6, 0, false, false, .slice, .orig, .len 3⟩ = none ∧
+    deref (store slice5 42 [10, 11, 12]) ⟨5, 8, false, false, .slice, .orig, .len 3⟩ = none := by decide
+example : ∃ q, apply ⟨5, .sized, true, false⟩ [.asThin, .unsize, .erase, .cast, .unsize] (initPtr ⟨5, .sized, true, false⟩) = some q ∧
+    deref (store ⟨5, .sized, true, false⟩ 7 [99]) q = some (.dynOf 7 [99]) := ⟨_, rfl, by decide⟩
+example : ∃ q, apply ⟨5, .swh 2, true, false⟩ [.asThin, .ptr] (initPtr ⟨5, .swh 2, true, false⟩) = some q ∧
+    deref (store ⟨5, .swh 2, true, false⟩ 8 [1, 20, 21]) q = some (.whole 8 [1, 20, 21]) := ⟨_, rfl, by decide⟩
+-- destruction goes through the header: the erased thin pointer destructs all three elements with the
+-- constructed type's glue, exactly like the original pointer
+example : ∃ q, apply slice5 [.asThin, .erase, .asThin] (initPtr slice5) = some q ∧
+    destructVia (store slice5 42 [10, 11, 12]) q = some (42, [10, 11, 12]) ∧
+    destructViaMeta (store slice5 42 [10, 11, 12]) q = some (0, []) := ⟨_, rfl, by decide, by decide⟩
+-- over a history: the block of `weakDemo2` (id 0, allocated by its `.alloc` op) is destructed once
+example : ∃ q, apply sliceAlloc (sliceChain ++ [.downgrade]) (initPtr sliceAlloc) = some q ∧
+    glueRuns (store sliceAlloc 42 [10, 11, 12]) q ((Arena.new 1).run weakDemo2).ctx.log = [(42, [10, 11, 12])] :=
+  ⟨_, rfl, by decide⟩
+-- the hypotheses of `destructed_as_original_type` / `zst_cache_rooted_block_kept` on `keepDemo`:
+-- pre = [enter], the `.alloc false []` is accepted and hands out the fresh id 0
+example : ((Arena.new 1).run [.enter .mutateRoot]).ctx.heap.fresh = 0 ∧
+    (((Arena.new 1).run [.enter .mutateRoot]).step (.alloc false [])).2 ≠ "bad-op" ∧
+    ((Arena.new 1).run ([.enter .mutateRoot] ++ [.alloc false []])).alive = true ∧
+    keepDemo = [.enter .mutateRoot] ++ .alloc false [] :: keepDemo.drop 2 :=
+  ⟨by decide, by decide, by decide, rfl⟩
+-- … and a cache ⟨0, 4096, 16⟩ whose block that is: what it reports (`.strong 0`) is in the root after
+-- two full cycles, so a later qualifying `alloc` gets block 0 again
+example : ∀ s, s ∈ cacheReports ⟨0, 4096, 16⟩ → s ∈ ((Arena.new 1).run keepDemo).root := by
+  intro s hs
+  rw [zst_cache_traces_cached_ptr] at hs
+  simp only [List.mem_singleton] at hs
+  subst hs
   decide
+example : ((Cache.mk 0 4096 16).alloc 9 0 8).obj = 0 ∧ ((Cache.mk 0 4096 16).alloc 9 0 8).fresh = false := by decide
+-- the theorem instantiated on that history: all hypotheses hold together
+example : Safe ((Arena.new 1).run keepDemo).ctx ((Cache.mk 0 4096 16).alloc 9 0 8).obj :=
+  (zst_cache_rooted_block_kept 1 [.enter .mutateRoot] (keepDemo.drop 2) ⟨0, 4096, 16⟩ (by decide) (by decide)
+    (by decide) (by decide)
+    (fun s hs => Or.inl (by
+      rw [zst_cache_traces_cached_ptr] at hs
+      simp only [List.mem_singleton] at hs
+      subst hs
+      decide))
+    9 0 8 (by decide)).2.2.2.1
 
 -- `[(); 2]` and `[(); 3]` from one cache, unsized to `[()]`: lengths 2 and 3, still `ptr_eq`
 example :
